@@ -255,7 +255,8 @@ def doMPUB (hc : HConf) (b : Broker) (rq : Request) : Out :=
     | .error e => resp .s400 e b
     | .ok t =>
       if binaryMode ((parseQuery rq.rawQuery).getD []) then
-        match Mpub.readMPUB hc.maxMsgSize hc.maxBodySize rq.body with
+        -- io.LimitReader(req.Body, max-body-size)
+        match Mpub.readMPUB hc.maxMsgSize hc.maxBodySize (rq.body.take hc.maxBodySize.toNat) with
         | .err c => resp .s413 (codeTail c) (getTopic b t)
         | .panic => resp .s500 "INTERNAL_ERROR" (getTopic b t)     -- recovered by LogPanicHandler
         | .ok bodies _ => resp .s200 "OK" (publish b t (toMsgs bodies))
